@@ -10,6 +10,7 @@ import (
 	"path/filepath"
 	"sort"
 	"strconv"
+	"strings"
 	"sync"
 )
 
@@ -79,12 +80,21 @@ func hashOf(name string, s string) uint32 {
 var castagnoli = crc32.MakeTable(crc32.Castagnoli)
 
 // collide64JSON holds collisions of the 64-bit FNV-1a / FNV-1 hashes among plain four-component versions, found once
-// with cmd/collide64 (parallel Pollard rho with distinguished points, ~2^32.5 evaluations per pair) and committed: a
+// with cmd/collide64 (parallel Pollard rho with distinguished points, ~2^32.5 evaluations per pair), and pairs of plain
+// three- and four-component versions with equal CRC-64 (ECMA, ISO) / CRC-32 (IEEE, Castagnoli), constructed with
+// cmd/collidecrc (a CRC is affine over GF(2): Gaussian elimination over the low bits of 24 digits). Committed: a
 // table validated by a 64-bit digest alone ("no need to compare the key") is wrong for exactly such pairs, and nobody
 // meets one by chance. FNV is an iterated hash, so every common suffix keeps the collision.
 //
 //go:embed collide64.json
 var collide64JSON []byte
+
+// CommittedCollisions returns the committed 64-bit FNV and CRC pairs (without suffix variants).
+func CommittedCollisions() []CollisionPair {
+	var base []CollisionPair
+	json.Unmarshal(collide64JSON, &base)
+	return base
+}
 
 func collide64Pairs() []CollisionPair {
 	var base []CollisionPair
@@ -93,6 +103,9 @@ func collide64Pairs() []CollisionPair {
 	}
 	out := append([]CollisionPair{}, base...)
 	for _, p := range base {
+		if strings.HasPrefix(p.Hash, "crc") {
+			continue // (a common suffix keeps a CRC collision too; the constructed pairs are long enough as they are)
+		}
 		for _, sfx := range []string{".7", "a1", "rc2", ".post1", "-rc1", "+local.1", "-1", "_p1", ".0", "-SNAPSHOT"} {
 			out = append(out, CollisionPair{p.Hash + "+suffix", p.A + sfx, p.B + sfx})
 		}
@@ -124,7 +137,7 @@ func CollidingPairs(prefix string) []CollisionPair {
 	}
 	var file string
 	if d := os.Getenv("VERIF_CACHE"); d != "" {
-		file = filepath.Join(d, "collide.v3."+strconv.Itoa(len(prefix))+prefix+".json")
+		file = filepath.Join(d, "collide.v4."+strconv.Itoa(len(prefix))+prefix+".json")
 		if b, err := os.ReadFile(file); err == nil {
 			var p []CollisionPair
 			if json.Unmarshal(b, &p) == nil && len(p) > 0 {
